@@ -1,12 +1,12 @@
 (* FerretCore v1 — reference syntax (C01, C02, C03, C09).
    Fragment: fixed-width integers i8..i64 / u8..u64, bool, functions and recursion, let / assignment / compound
    assignment (desugared by the renderer), if / else, while, break / continue, return, print of one or more values. *)
-From Coq Require Import ZArith List Bool.
+From Coq Require Import String ZArith List Bool.
 Import ListNotations.
 Local Open Scope Z_scope.
 
 Inductive ity := I8 | I16 | I32 | I64 | U8 | U16 | U32 | U64.
-Inductive ty := TInt (t : ity) | TBool | TVoid | TStruct (sid : nat)   (* struct sid: fields are integers (Syntax.structs table) *)
+Inductive ty := TInt (t : ity) | TBool | TVoid | TStr | TStruct (sid : nat)   (* struct sid: fields are integers (Syntax.structs table) *)
               | TMutRef (sid : nat).   (* parameter type only: mutable reference &'S<sid>; inside the callee the parameter is used
                                           like a struct variable, and the caller's variable receives its final value *)
 
@@ -16,6 +16,7 @@ Inductive unop := Neg | Not.
 Inductive expr :=
 | ELit (t : ity) (v : Z)
 | EBool (b : bool)
+| EStr (s : string)                             (* string literal; `+` concatenates, `==` / `!=` compare contents *)
 | EVar (x : nat)
 | EBin (o : binop) (a b : expr)
 | EUn (o : unop) (a : expr)
@@ -56,6 +57,7 @@ Definition ty_eqb (a b : ty) : bool :=
   | TInt x, TInt y => ity_eqb x y
   | TBool, TBool => true
   | TVoid, TVoid => true
+  | TStr, TStr => true
   | TStruct a, TStruct b => Nat.eqb a b
   | TMutRef a, TMutRef b => Nat.eqb a b
   | _, _ => false
